@@ -46,7 +46,7 @@ let () =
            let (s', ob) = step !st o in
            st := s';
            incr idx;
-           print_obs !idx ob)
+           print_obs ~jpre:(if cmd = "match" then Cmd_jpre.jpre f else "*") !idx ob)
     done
   with End_of_file -> ());
   flush stdout
